@@ -71,17 +71,12 @@ class ReedSolomonCodeEncoder(SystematicLinearBlockCodeEncoder):
         # Create the generator matrix and parity submatrix
         generator_matrix = self._create_generator_matrix(dtype=dtype)
 
-        # Extract the parity submatrix
-        if information_set == "left":
-            parity_submatrix = generator_matrix[:, dimension:]
-        else:
-            parity_submatrix = generator_matrix[:, :redundancy]
+        # Extract the parity submatrix (the matrix above is built as [I_k | P])
+        parity_submatrix = generator_matrix[:, dimension:]
 
-        # Initialize the parent class with the parity submatrix
+        # Initialize the parent class with the parity submatrix; it builds the systematic
+        # generator matrix for the requested information set
         super().__init__(parity_submatrix=parity_submatrix, information_set=information_set, dtype=dtype, **kwargs)
-
-        # Store the full generator matrix as a buffer
-        self.register_buffer("generator_matrix", generator_matrix)
 
     def _compute_generator_polynomial(self, delta: int) -> BinaryPolynomial:
         """Compute the generator polynomial g(x) = (x-α)*(x-α²)*...*(x-α^(δ-1))."""
